@@ -34,6 +34,34 @@ func main() {
 		*tier = "quick"
 	}
 	seed, _ := strconv.ParseInt(os.Getenv("VERIF_SEED"), 10, 64)
+	if *prop == "all" {
+		// development aid: every property in one process, sharing the loaded programs
+		if abs, err := filepath.Abs(*repo); err == nil {
+			*repo = abs
+		}
+		findings, _ := core.LoadFindings(filepath.Join(*verif, "known_findings.txt"))
+		worst := 0
+		for _, id := range props.IDs() {
+			run, _ := props.Lookup(id)
+			rep := core.NewReport(id, *tier, seed)
+			ctx := props.NewCtx(*repo, *verif, *tier, rep)
+			func() {
+				defer func() {
+					if e := recover(); e != nil {
+						rep.Fatalf("analyser panic: %v\n%s", e, debug.Stack())
+					}
+				}()
+				run(ctx)
+				if !*noSelf {
+					props.SelfTests(ctx, id)
+				}
+			}()
+			if rc := rep.Finish(*verif, findings); rc > worst {
+				worst = rc
+			}
+		}
+		os.Exit(worst)
+	}
 	run, ok := props.Lookup(*prop)
 	if !ok {
 		fmt.Fprintf(os.Stderr, "chverif: no runner for property %q\n", *prop)
